@@ -1547,19 +1547,21 @@ def float32_bounds(ctx, rng, quick):
     `float32_comparison_exact` proves that on float32 numbers this is the exact comparison (all other
     streams); `float32_bound_rounding_changes_selection` shows the difference otherwise.  These
     windows are outside the stated claim (interpretation decision), so this stream is a
-    correspondence only: the implementation must behave like the float32 model or -- a library
-    comparing in double -- like the exact model; which one is counted, not prescribed."""
+    correspondence only and prescribes no rounding mode: per axis, every sample on which the
+    float32 model and the exact model agree must be treated that way by the implementation; a
+    sample on which they differ may go either way (a library comparing one axis or one bound in
+    double still passes).  What the implementation does is counted."""
     from pyunicorn.core import GeoGrid
     from pyunicorn.climate import ClimateData
     reqs32, reqsx, impl, meta = [], [], [], []
-    for _ in range(80 if quick else 800):
+    for _ in range(120 if quick else 1200):
         T, N, c = rng.randrange(3, 10), rng.randrange(2, 6), rng.choice([1, 2, 3])
         scale = rng.choice([1, 1, 2 ** 10, 2 ** -6])
         time = sorted(rng.sample(range(-40, 80), T))
         time = [t / 8 * scale for t in time]
         lat = [rng.randrange(-80, 80) / 8 for _ in range(N)]
         lon = [rng.randrange(0, 160) / 8 for _ in range(N)]
-        obs = [[float(rng.randrange(-50, 50) * 6) for _ in range(N)] for _ in range(T)]
+        obs = [[float(t * N + j) for j in range(N)] for t in range(T)]   # entry = identity of (t, j)
 
         def near(xs):
             x = rng.choice(xs)
@@ -1571,56 +1573,77 @@ def float32_bounds(ctx, rng, quick):
             if r < 0.85:      # clearly off the sample
                 return x + rng.choice([-1, 1]) * max(abs(x), 1.0) * 2.0 ** -rng.choice([10, 20])
             return x + rng.choice([0.1, -0.1, 1 / 3])
-        ops32, opsx, wins = [], [], []
-        for _ in range(rng.randrange(1, 4)):
-            b = sorted([near(time), near(time)]) + sorted([near(lat), near(lat)]) \
-                + sorted([near(lon), near(lon)])
-            if rng.random() < 0.3:
-                b[2] = b[3] = 0.0           # whole spatial extent: the time axis decides
-            w = dict(zip(WKEYS, (float(x) for x in b)))
-            wins.append(w)
-            tok = ",".join(enc_num(w[k]) for k in WKEYS)
-            ops32 += ["W32=" + tok, "o", "g", "cs"]
-            opsx += ["W=" + tok, "o", "g", "cs"]
+        b = sorted([near(time), near(time)]) + sorted([near(lat), near(lat)]) \
+            + sorted([near(lon), near(lon)])
+        r = rng.random()
+        if r < 0.3:
+            b[2] = b[3] = 0.0           # whole spatial extent: the time axis decides
+        elif r < 0.4:
+            b[0] = b[1]                 # whole time axis
+        w = dict(zip(WKEYS, (float(x) for x in b)))
+        tok = ",".join(enc_num(w[k]) for k in WKEYS)
         head = ["run", str(c), "0", "G", enc_vec(time), enc_vec(lat), enc_vec(lon),
-                ";".join(enc_vec(r) for r in obs)]
+                ";".join(enc_vec(row) for row in obs)]
         grid = GeoGrid(np.array(time), np.array(lat), np.array(lon), 2)
-        outs = ["ok"]
         with quiet():
             d = ClimateData(np.array(obs), grid, c, silence_level=2)
-            for w in wins:
-                try:
-                    d.set_window(w)
-                    outs.append("ok")
-                except ValueError:
-                    outs.append("raise:ValueError")
+            try:
+                d.set_window(w)
+                out = "ok|" + enc_mat(d.observable())
+            except ValueError:
+                out = "ok|raise:ValueError"
+            else:
                 g = d.grid.grid()
-                outs += [enc_mat(d.observable()),
-                         "~".join(enc_vec(g[k]) for k in ("time", "lat", "lon")),
-                         ",".join(str(int(x)) for x in d.__cache_state__())]
-        reqs32.append(" ".join(head + ops32))
-        reqsx.append(" ".join(head + opsx))
-        impl.append("|".join(outs))
-        meta.append(f"time={time} lat={lat} lon={lon} windows={wins}")
+                out += "|" + "~".join(enc_vec(g[k]) for k in ("time", "lat", "lon"))
+                out += "|" + ",".join(str(int(x)) for x in d.__cache_state__())
+        reqs32.append(" ".join(head + ["W32=" + tok, "o", "g", "cs"]))
+        reqsx.append(" ".join(head + ["W=" + tok, "o", "g", "cs"]))
+        impl.append(out)
+        meta.append((N, f"time={time} lat={lat} lon={lon} window={w}"))
     m32 = common.driver(ctx.pid, reqs32)
     mx = common.driver(ctx.pid, reqsx)
-    bad, n32, nx, nboth = [], 0, 0, 0
-    for a, b, i, what in zip(m32, mx, impl, meta):
-        if a == b == i:
-            nboth += 1
-        elif i == a:
-            n32 += 1
-        elif i == b:
-            nx += 1
+
+    def norm(ans):
+        """model answer `ok|ok|o|g|cs` / `ok|raise:ValueError|...` -> the implementation's format"""
+        p = ans.split("|")
+        return "ok|raise:ValueError" if len(p) > 1 and p[1].startswith("raise") else "|".join([p[0]] + p[2:])
+
+    def axes(ans, N):
+        p = ans.split("|")
+        if len(p) < 2 or p[1].startswith("raise"):
+            return None
+        body = p[1].split(":", 1)[1]
+        ids = [[int(Fraction(x)) for x in row.split(",")] for row in body.split(";")]
+        ts, ns = [row[0] // N for row in ids], [x % N for x in ids[0]]
+        if ids != [[t * N + j for j in ns] for t in ts]:
+            return "not-a-product"
+        return set(ts), set(ns), ts, ns
+    bad, cnt = [], {"both": 0, "float32": 0, "exact": 0, "mixed": 0, "not-judged": 0}
+    for a, b, i, (N, what) in zip(m32, mx, impl, meta):
+        a, b = norm(a), norm(b)
+        if i == a or i == b:
+            cnt["both" if a == b else ("float32" if i == a else "exact")] += 1
+            continue
+        A, B, I = axes(a, N), axes(b, N), axes(i, N)
+        if I == "not-a-product":
+            bad.append(f"{what[:300]} :: observable() is not rows x columns of the full data: {i[:200]}")
+        elif A is None or B is None or I is None:
+            if I is None and A is not None and B is not None:
+                bad.append(f"{what[:300]} :: ValueError, but both models select samples")
+            else:
+                cnt["not-judged"] += 1
+        elif all((A[k] & B[k]) <= I[k] <= (A[k] | B[k]) for k in (0, 1)) \
+                and I[2] == sorted(I[2]) and I[3] == sorted(I[3]):
+            cnt["mixed"] += 1
         else:
-            bad.append(f"{what[:300]} :: float32 model={a[:200]} exact model={b[:200]} impl={i[:200]}")
+            bad.append(f"{what[:300]} :: float32 model={a[:160]} exact model={b[:160]} impl={i[:160]}")
     ctx.obligation(
         f"correspondence: set_window with Python-float bounds that are not float32 numbers "
-        f"({len(impl)} histories: {nboth} where rounding the bounds does not matter, {n32} follow the "
-        f"float32 model only, {nx} the exact model only)", "correspondence", not bad, "\n".join(bad[:5]))
-    ctx.count("float32-bounds:rounding-irrelevant", nboth)
-    ctx.count("float32-bounds:float32-semantics", n32)
-    ctx.count("float32-bounds:exact-semantics", nx)
+        f"({len(impl)} windows: {cnt['both']} where rounding the bounds does not matter, {cnt['float32']} "
+        f"as the float32 model, {cnt['exact']} as the exact model, {cnt['mixed']} in between)",
+        "correspondence", not bad, "\n".join(bad[:5]))
+    for k, v in cnt.items():
+        ctx.count("float32-bounds:" + k, v)
 
 
 class _Probe:
